@@ -343,7 +343,10 @@ def known_findings(pid):
         m = re.match(r"finding:\s+property=(\S+)\s+id=(\S+)\s+class=(\S+)\s+(.*)", line)
         if m and m.group(1) == pid:
             res.append({"id": m.group(2), "class": m.group(3), "text": m.group(4)})
-    return res
+    # development aid (never set by the registered commands): VERIF_IGNORE_FINDINGS=<id>,<id> drops listed findings, to see
+    # that a finding the file lists is reported as a VIOLATION when it is not listed
+    ign = {x.strip() for x in os.environ.get("VERIF_IGNORE_FINDINGS", "").split(",") if x.strip()}
+    return [f for f in res if f["id"] not in ign and f["id"].split("-")[-1] not in ign]
 
 
 # ------------------------------------------------------------------ result / evidence
